@@ -161,6 +161,39 @@ void buildCase(const JV& c, size_t k, std::string& out) {
 	if (c["strips"].b && toSSE && !(c["headParts"].b && c["skinned"].b)) addStripsShape(gen); // (head-part models hold skinned shapes only)
 	NifFile nif;
 	if (loadFromString(nif, saveToString(gen, true, true)) != 0) return;
+	std::string odd = c.has("odd") ? c["odd"].s : std::string();
+	if (odd == "rootLater") {
+		// the first geometry data block and the root change places: a file with a loose-to-be block in front of its root
+		auto& hd = nif.GetHeader();
+		uint32_t n = hd.GetNumBlocks(), d = NIF_NPOS;
+		for (uint32_t b = 1; b < n && d == NIF_NPOS; b++)
+			if (hd.GetBlock<NiTriShapeData>(b)) d = b;
+		if (d == NIF_NPOS) return;
+		std::vector<uint32_t> order(n);
+		for (uint32_t b = 0; b < n; b++) order[b] = b;
+		order[0] = d;
+		order[d] = 0;
+		hd.SetBlockOrder(order);
+		NifFile re;
+		if (loadFromString(re, saveToString(nif, false, false)) != 0) return;
+		nif.CopyFrom(re);
+	}
+	else if (odd == "uncovered") {
+		// two more triangles on every skinned shape, partitions left as they are
+		for (auto sh : nif.GetShapes()) {
+			if (!sh->IsSkinned() && (!sh->SkinInstanceRef() || sh->SkinInstanceRef()->IsEmpty())) continue;
+			std::vector<Triangle> t;
+			sh->GetTriangles(t);
+			uint16_t m = sh->GetNumVertices();
+			if (m < 6) continue;
+			t.emplace_back(uint16_t(0), uint16_t(m / 2), uint16_t(m - 1));
+			t.emplace_back(uint16_t(1), uint16_t(m / 2 + 1), uint16_t(m - 2));
+			sh->SetTriangles(t);
+		}
+		NifFile re;
+		if (loadFromString(re, saveToString(nif, false, false)) != 0) return;
+		nif.CopyFrom(re);
+	}
 	OptOptions o;
 	o.targetVersion = toSSE ? NiVersion::getSSE() : NiVersion::getSK();
 	// "use ONLY for head parts": head parts are skinned, and on the way back the shapes must be dynamic ones
